@@ -135,7 +135,77 @@ class FlatHomogen(Family):
         return res
 
 
+def wrapper_buffers(tier):
+    """dutils.aggregate / dutils.flathomogen: what the kernels receive is what the symbolic families assume - int32 index and float64 copies of
+    the caller's data, the operator and maxnan unchanged, an output buffer that is NaN wherever the input is missing (c_flathomogen and the
+    head of c_aggregate rely on it) - the caller's arrays stay untouched, an error code becomes an exception and the result is the kernel's
+    output (truncated to iend for aggregate)"""
+    import numpy as np
+    from hydrodiy.data import dutils as D
+    from engine.contracts import Recorder, patched_module
+    out = []
+    nan = np.nan
+    series = [np.array([1.5, nan, -2.0, 0.0, nan, 7.0]), np.array([nan]), np.array([3.0]), np.array([nan, nan, 1.0, 2.0]),
+              np.array([1, 2, 3, 4], dtype=np.int64), np.array([0.5, 1.5, nan, 2.5, 3.5, nan, nan, 8.0])[::2]]
+    for x in series:
+        n = len(x)
+        for idx in (np.arange(n) // 2, np.zeros(n, dtype=np.int64), list(range(n)), (np.arange(n) // 2 + 2 ** 31 - 3).astype(np.int64) - 2 ** 31):
+            x0 = np.array(x, copy=True)
+            idx0 = np.array(idx, copy=True)
+            for maxnan in (0, 1, 3):
+                tag = dict(n=n, maxnan=maxnan, dtype=str(x.dtype), x=[None if v != v else float(v) for v in x0.astype(float)])
+
+                def fh(c):
+                    c.raw_args[3][:] = np.where(np.isnan(c.raw_args[3]), c.raw_args[3], 42.0)
+                    return 0
+                rec = Recorder({'flathomogen': fh})
+                with patched_module(D, 'c_hydrodiy_data', rec):
+                    res = D.flathomogen(idx, x, maxnan)
+                c = rec.calls[-1]
+                want_out = np.isnan(x0.astype(float))
+                out.append(('flathomogen-output-buffer-nan-where-input-missing', bool(np.array_equal(np.isnan(c.args[3]), want_out)) and len(c.args[3]) == n, tag))
+                out.append(('flathomogen-kernel-gets-the-data', int(c.args[0]) == maxnan and c.args[1].dtype == np.int32 and list(c.args[1]) == list(np.asarray(idx0))
+                            and c.args[2].dtype == np.float64 and np.array_equal(c.args[2], x0.astype(float), equal_nan=True), tag))
+                out.append(('flathomogen-returns-kernel-output', bool(np.array_equal(res, np.where(want_out, nan, 42.0), equal_nan=True)), tag))
+                out.append(('flathomogen-arguments-untouched', bool(np.array_equal(x, x0, equal_nan=True)) and np.array_equal(np.asarray(idx), idx0), tag))
+                for op in (0, 1, 2, 3):
+                    def ag(c):
+                        c.raw_args[4][:2] = [11.0, 12.0][:len(c.raw_args[4][:2])]
+                        c.raw_args[5][0] = min(2, len(c.raw_args[4]))
+                        return 0
+                    rec = Recorder({'aggregate': ag})
+                    with patched_module(D, 'c_hydrodiy_data', rec):
+                        res = D.aggregate(idx, x, op, maxnan)
+                    c = rec.calls[-1]
+                    t2 = dict(tag, operator=op)
+                    out.append(('aggregate-kernel-gets-the-data', int(c.args[0]) == op and int(c.args[1]) == maxnan and c.args[2].dtype == np.int32
+                                and list(c.args[2]) == list(np.asarray(idx0)) and c.args[3].dtype == np.float64
+                                and np.array_equal(c.args[3], x0.astype(float), equal_nan=True) and len(c.args[4]) == n
+                                and c.args[5].dtype == np.int32 and list(c.args[5]) == [0], t2))
+                    out.append(('aggregate-returns-kernel-output-up-to-iend', list(res) == [11.0, 12.0][:min(2, n)], t2))
+                    out.append(('aggregate-arguments-untouched', bool(np.array_equal(x, x0, equal_nan=True)) and np.array_equal(np.asarray(idx), idx0), t2))
+            for name, call in (('aggregate', lambda: D.aggregate(idx, x, 0, 0)), ('flathomogen', lambda: D.flathomogen(idx, x, 0))):
+                rec = Recorder({name: lambda c: 1})
+                raised = False
+                with patched_module(D, 'c_hydrodiy_data', rec):
+                    try:
+                        call()
+                    except ValueError:
+                        raised = True
+                out.append(('%s-error-code-raises' % name, raised, dict(n=n)))
+    return out
+
+
+CONTRACTS = [wrapper_buffers]
+
+
+def contracts_part(tier, seed, workdir):
+    from engine.contracts import run_contracts
+    return run_contracts('C08', 'harness.C08', CONTRACTS, tier)
+
+
 FAMILIES = [Aggregate(), FlatHomogen()]
+PARTS = [contracts_part]
 
 META = dict(
     explanation='bounded symbolic execution of the LLVM IR of c_aggregate / c_flathomogen (clang -O0 from the current tree) with '
